@@ -79,6 +79,9 @@ class AFS:
         self._perm = {}
         self.fault = None
         self.nops = 0
+        self.clock = 1
+        self.mtime = {}
+        self.ino = {}
         self.mkdirs(cwd)
         self.mkdirs(home)
 
@@ -93,12 +96,14 @@ class AFS:
         path = posixpath.normpath(posixpath.join(self.cwd, path))
         self.mkdirs(posixpath.dirname(path))
         self.files[path] = Node(ABuf.file(fid, size))
+        self.touch(path)
         return path
 
     def add_content(self, path, content):
         path = posixpath.normpath(posixpath.join(self.cwd, path))
         self.mkdirs(posixpath.dirname(path))
         self.files[path] = Node(content)
+        self.touch(path)
         return path
 
     def add_token(self, path, tok):
@@ -180,8 +185,30 @@ class AFS:
         return [names[i] for i in self._perm[key]]
 
     # ---- mutation ----------------------------------------------------------
+    def touch(self, *paths):
+        """Bump modification times (path and its parent directory)."""
+        self.clock += 1
+        for p in paths:
+            self.mtime[p] = self.clock
+            self.mtime[posixpath.dirname(p)] = self.clock
+            self.ino.setdefault(p, len(self.ino) + 100)
+
+    def stat(self, p):
+        r = self.resolve(p)
+        if r is None or (r not in self.files and r not in self.dirs):
+            raise FileNotFoundError(errno.ENOENT, "No such file or directory", _s(p))
+        isdir = r in self.dirs
+        size = 4096 if isdir else self.files[r].content.size()
+        m = self.mtime.get(r, 1)
+        return types.SimpleNamespace(st_size=size, st_mode=(0o040755 if isdir else 0o100644), st_ino=self.ino.setdefault(r, len(self.ino) + 100),
+                                     st_mtime_ns=m * 1000000000, st_mtime=float(m), st_ctime_ns=m * 1000000000, st_ctime=float(m),
+                                     st_dev=1, st_nlink=1, st_uid=0, st_gid=0, st_atime=float(m), st_atime_ns=m * 1000000000)
+
     def _op(self, *entry):
         """Record a mutating operation; fault point."""
+        for a in entry[1:]:
+            if isinstance(a, str) and a.startswith("/"):
+                self.touch(a)
         k = self.nops
         self.nops += 1
         f = self.fault
@@ -343,6 +370,8 @@ class AFS:
         c._perm = dict(self._perm)
         c.fault = None
         c.nops = 0
+        c.mtime = dict(self.mtime)
+        c.ino = dict(self.ino)
         if tag is not None:
             c.tag = tag
         return c
@@ -393,8 +422,8 @@ class AFS:
             def iterdir(self):
                 return iter([self / n for n in fs.listdir(str(self))])
 
-            def stat(self):
-                return types.SimpleNamespace(st_size=fs.getsize(str(self)))
+            def stat(self, **k):
+                return fs.stat(str(self))
 
             def resolve(self, strict=False):
                 return Path(fs.abs(str(self)))
@@ -728,8 +757,10 @@ class OsModel:
     def getpid(self):
         return 4242
 
-    def stat(self, p):
-        return types.SimpleNamespace(st_size=self._fs.getsize(p), st_mode=0o100644)
+    def stat(self, p, **k):
+        return self._fs.stat(p)
+
+    lstat = stat
 
     def walk(self, top, topdown=True):
         top = _s(top)
